@@ -117,6 +117,9 @@ namespace cs
                 case 2:
                     p.add("base", {(long long)r.below(2), (long long)r.below(2)});
                     break;
+                case 3:
+                    p.add("dl", {(long long)r.below(3), (long long)r.below(3), (long long)r.below(9)});
+                    break;
                 default:
                     p.add("mk", {(long long)r.below(3), (long long)r.below(3), (long long)r.below(5),
                                  (long long)r.below(16), (long long)r.below(18)});
@@ -169,6 +172,7 @@ namespace cs
                 names.push_back(kv.first);
             p.set("cont", names[r.below(names.size())]);
             p.set("end", (long long)r.below(4));
+            p.set("pmr_max_node", (long long)r.pick<long long>({16, 24, 64, 100, 4096}));
             unsigned fault_pct = r.chance(1, 3) ? r.pick<unsigned>({3, 10}) : 0;
             static const char* kinds[] = {"ins", "ins", "ins", "ins", "era", "era", "clr", "cpa", "mva",
                                           "swp", "cpc", "mvc", "cpx", "spl", "spl", "rsv"};
